@@ -35,12 +35,12 @@ NEEDS = {
  'c16-m1': ('C16', 'assembler Reset() after Next(n): bytes of the next frame that arrived in the same read are dropped, the rest is answered with an exception addressed to nobody', 'ported to the repaired assembler'),
  'c16-m2': ('C16', 'panic recovery wraps rec.(error): a handler panic with a non-error value re-panics in the deferred function and kills the process', ''),
  'c17-m1': ('C17', 'busy flag set only around the response write: Shutdown closes a connection whose (slow) handler is still running', 'ported to the repaired server.go'),
- 'c17-m2': ('C17', 'live count reserved at accept and never released on rejection: accept callback told too many after each rejected connection', ''),
+ 'c17-m2': ('C17', 'live count reserved at accept and never released on rejection: accept callback told too many after each rejected connection (a second sub-agent produced the identical change independently; kept once)', 'ported to the repaired server.go'),
  'c18-m1': ('C18', 'expected length computed as uint16(pduLen+6): wraps for length fields 65530..65535', ''),
  'c18-m2': ('C18', 'classifier enforces the 260-byte ADU limit although the constructors build 261..265-byte FC16/FC23 frames', 'ported to the repaired classifier'),
  'c19-m1': ('C19', 'serial AfterEachRead moved below the fatal-error return: the read that ends the call with an I/O error is never reported', ''),
  'c19-m2': ('C19', 'BeforeParse moved into the read loop exit total >= expectedLen: replies cut short by EOF are parsed without BeforeParse', ''),
- 'c02-m3': ('C02', 'Client reads into a per-client receive buffer and returns a slice of it: an earlier response (FC1-4/23 alias their input) shows the payload of a later call on the same client', 'wave 2'),
+ 'c02-m3': ('C02', 'Client reads into a per-client receive buffer and returns a slice of it: an earlier response (FC1-4/23 alias their input) shows the payload of a later call on the same client', 'wave 2; the change is in client.go, so the packet-level C02 check cannot see it: it is caught at the client boundary by C07 (session mode) and C14'),
  'c02-m4': ('C02', 'exception recognisers additionally require a SUPPORTED originating function: the other 118 exception function codes become untyped "unknown function code" errors', 'wave 2'),
  'c05-m3': ('C05', 'group key server+unit without separator: 10.0.0.7:502/unit 1 collides with 10.0.0.7:50/unit 21', 'wave 2'),
  'c05-m4': ('C05', 'lenient extraction stops decoding after the first failed field: needs a truncated reply where an unreachable wide field precedes a reachable narrow one in request order', 'wave 2'),
@@ -63,11 +63,20 @@ NEEDS = {
  'c16-m3': ('C16', 'one default assembler shared by all connections: a partial frame pending on connection A is joined with the bytes of connection B, which gets a reply carrying A\'s tid/unit', 'wave 2'),
  'c16-m4': ('C16', 'recovered handler panic reported through the raw s.OnErrorFunc: with OnErrorFunc unset a handler panic calls a nil func in the deferred block and kills the process', 'wave 2'),
  'c17-m3': ('C17', 'busy flag cleared right after the handler returns, before the reply is written: a Shutdown landing between handler return and write closes the connection, Shutdown returns nil, reply lost', 'wave 2'),
- 'c17-m4': ('C17', 'connection count reserved before the accept callback and never given back on rejection: later callbacks are told a count too high by the number of rejections', 'wave 2'),
  'c18-m3': ('C18', 'unsupported-function error built by mutating a package-level template (pointer copy): the exception returned for frame A changes once another unsupported frame is classified', 'wave 2'),
  'c18-m4': ('C18', 'new FC16 check "byte count == 2 x register count" copy-pasted from FC15: its exception names function 0x0f instead of 0x10 for self-consistent frames with a mismatching quantity', 'wave 2'),
  'c19-m3': ('C19', 'BeforeParse receives a hook-side copy that is only cleared when a reply reaches the parser: after a failed call its bytes are prepended to the next call\'s frame (two calls on one client)', 'wave 2'),
  'c19-m4': ('C19', 'serial AfterEachRead moved below the fatal-error check: the read that ends the call with an I/O error is never reported', 'wave 2'),
+ 'c11-m3': ('C11', 'IsCoilSet/IsInputSet clip the payload to the stored byte-count field: hand-built responses with an unset or stale length field lose coils (parsed responses unaffected)', 'wave 2'),
+ 'c11-m4': ('C11', 'client receive buffer reused across calls: an earlier coil response decodes as the later one', 'wave 2; change is in client.go: caught at the client boundary by C07 (session mode) and C14, not by the packet-level C11 check'),
+ 'c01-m3': ('C01', 'shared read-request encoder clamps the quantity when start+quantity > 65536: Bytes() carries a smaller quantity than the accepted request', 'wave 2'),
+ 'c01-m4': ('C01', 'CoilsToBytes rounds up with (n+8)/8: coil counts that are multiples of 8 get a spare zero byte (byte count, MBAP length consistent but one too large)', 'wave 2'),
+ 'c03-m3': ('C03', 'ParseRTUResponseWithCRC recognises exception frames before the CRC comparison: every 5-byte frame with the exception bit passes for all 65536 trailers', 'wave 2'),
+ 'c03-m4': ('C03', 'FC3 RTU response CRC computed over the bytes filled rather than the frame length: hand-built responses with RegisterByteLen != len(Data) carry a trailer that is not the CRC of the preceding bytes', 'wave 2'),
+ 'c04-m3': ('C04', 'explicit byte order without a word-order flag inherits the word order of the view default: needs WithByteOrder(low word first) earlier, then an endianness-only explicit order', 'wave 2'),
+ 'c04-m4': ('C04', 'String bounds check uses cap instead of len: reads past the window succeed when the payload slice has spare capacity (RTU CRC bytes, reused buffers)', 'wave 2'),
+ 'c09-m3': ('C09', 'FC16 request parsers return a view of the input buffer instead of a copy: the decoded request changes when the receive buffer is reused', 'wave 2'),
+ 'c09-m4': ('C09', 'FC5 value check rewritten as a mask testing only the low byte: the 254 illegal values 0x0100..0xFE00 are decoded as "off"', 'wave 2'),
 }
 res = collections.defaultdict(dict)
 for f in sys.argv[1:]:
